@@ -2,6 +2,7 @@ import Lean.Data.Json
 import GristModel
 import Driver.Treeview
 import Driver.Engine
+import Driver.SummaryModel
 import Driver.Refs
 import Driver.FormulaRename
 import Driver.PredRename
@@ -56,6 +57,7 @@ def handleStateless (m : String) (j : Json) : Except String Json :=
   | "predrename" => Grist.Driver.PredRename.handlePredRename j
   | "formularename" => handleFormulaRename j
   | "refs" => handleRefs j
+  | "summarymodel" => handleSummaryModel j
   | _ => throw s!"unknown model {m}"
 
 structure AllState where
